@@ -151,7 +151,17 @@ func faultVariant(base []Op, k int, fault []Op, post []Op) []Op {
 	v := append([]Op(nil), base[:k]...)
 	v = append(v, fault...)
 	v = append(v, base[k:]...)
-	return append(v, post...)
+	for _, op := range post {
+		if op.K == "fault2" {
+			// the second fault of a history alternates between the two kinds
+			op = Op{K: "lose"}
+			if k%2 == 1 {
+				op = Op{K: "stop"}
+			}
+		}
+		v = append(v, op)
+	}
+	return v
 }
 
 // RunFaultCase generates a base history and enumerates the fault at every step.
@@ -218,6 +228,11 @@ func RunFaultCase(rt *rapid.T, env *Env, prop *SimProp, faults func(w *World) []
 			cj := openJournal(env, prop, p, cfg, vw)
 			vw.Settle()
 			for _, op := range script {
+				if op.K == "drain" {
+					// answer whatever is outstanding (recorded as the individual answers)
+					answerAllOK(vw)
+					continue
+				}
 				vw.Exec(op)
 			}
 			judge(vw, vw.SymScript)
@@ -323,9 +338,12 @@ func C11Faults(w *World) [][]Op {
 
 type MonC20 struct {
 	baseMon
-	faultStep      int
+	faultStep      int // step of the most recent fault
 	faultKind      string
-	startStep      int
+	startStep      int // step of the most recent Start after a fault (-1 while stopped)
+	stopped        bool
+	faults         int
+	cycles         [][2]int // fault step, start step (-1 = never restarted)
 	pendingAtFault bool
 }
 
@@ -336,7 +354,7 @@ func (m *MonC20) OnStepEnd(w *World, step int) {
 		return
 	}
 	op := w.Script[step]
-	if m.faultStep < 0 && op.K != "stop" && op.K != "lose" {
+	if m.faults == 0 && op.K != "stop" && op.K != "lose" {
 		// remember whether work is outstanding, for the step at which the fault strikes
 		m.pendingAtFault = w.mq.PendingCount() > 0
 		for _, c := range w.Clients {
@@ -345,8 +363,15 @@ func (m *MonC20) OnStepEnd(w *World, step int) {
 			}
 		}
 	}
-	if (op.K == "stop" || op.K == "lose") && m.faultStep < 0 {
-		m.faultStep, m.faultKind = step, op.K
+	// every fault of the history is held to the statement, also one that
+	// strikes a service that was stopped and started before
+	if (op.K == "stop" || op.K == "lose") && !m.stopped {
+		m.faultStep, m.faultKind, m.stopped, m.startStep = step, op.K, true, -1
+		m.faults++
+		m.cycles = append(m.cycles, [2]int{step, -1})
+		if m.faults > 1 {
+			m.class("fault_after_restart")
+		}
 		// every client socket is closed
 		for _, c := range w.Clients {
 			if c.Dialed && !c.EOF {
@@ -358,14 +383,15 @@ func (m *MonC20) OnStepEnd(w *World, step int) {
 		if op.K == "lose" {
 			want = "lost NATS connection"
 		}
-		if len(w.StopSeen) == 0 || !strings.Contains(w.StopSeen[len(w.StopSeen)-1], want) {
-			m.violate(w, "stop_cause_not_reported", "after %s the stop channel reported %v, expected a value containing %q", op.K, w.StopSeen, want)
+		if len(w.StopSeen) < m.faults || !strings.Contains(w.StopSeen[len(w.StopSeen)-1], want) {
+			m.violate(w, "stop_cause_not_reported", "after %s (fault %d of the history) the stop channel has reported %v, expected one value per fault and the last to contain %q", op.K, m.faults, w.StopSeen, want)
 		}
 	}
-	if op.K == "start" && m.faultStep >= 0 && m.startStep < 0 {
-		m.startStep = step
+	if op.K == "start" && m.stopped {
+		m.stopped, m.startStep = false, step
+		m.cycles[len(m.cycles)-1][1] = step
 	}
-	if m.faultStep >= 0 && m.startStep < 0 && step > m.faultStep {
+	if m.stopped && step > m.faultStep {
 		switch op.K {
 		case "connect":
 			c := w.Clients[len(w.Clients)-1]
@@ -402,21 +428,27 @@ func (m *MonC20) OnLog(w *World, e *LogEntry) {
 }
 
 func (m *MonC20) OnEnd(w *World) []Violation {
-	if m.startStep >= 0 {
-		// the restarted service serves a subscribe
-		c := w.client(-1)
+	for i, cy := range m.cycles {
+		if cy[1] < 0 {
+			continue
+		}
+		// the restarted service serves a subscribe (before the next fault, if any)
+		until := len(w.Script)
+		if i+1 < len(m.cycles) {
+			until = m.cycles[i+1][0]
+		}
 		served := false
-		if c != nil {
+		for _, c := range w.Clients {
 			for _, id := range c.Ref.ReqOrder {
 				r := c.Ref.Reqs[id]
-				if r.Action == "subscribe" && r.Resp > 0 && !r.IsError && r.SentStep > m.startStep {
+				if r.Action == "subscribe" && r.Resp > 0 && !r.IsError && r.SentStep > cy[1] && r.SentStep < until {
 					served = true
 				}
 			}
 		}
 		m.class("restarted")
 		if !served {
-			m.violate(w, "restart_not_serving", "after Start at step %d a new connection's subscribe was not served", m.startStep)
+			m.violate(w, "restart_not_serving", "after Start at step %d a new connection's subscribe was not served", cy[1])
 		}
 	}
 	if m.pendingAtFault {
@@ -426,6 +458,8 @@ func (m *MonC20) OnEnd(w *World) []Violation {
 	return m.viols
 }
 
+// c20Post: after the fault, a handshake and an HTTP request (refused), Start, a
+// served subscribe; then a second fault on the restarted service and the same again.
 func c20Post() []Op {
 	return []Op{
 		{K: "connect"},
@@ -433,7 +467,14 @@ func c20Post() []Op {
 		{K: "start"},
 		{K: "connect"},
 		{K: "creq", C: -1, ID: 1, M: "subscribe.t.e"},
-		{K: "ans", S: "access.t.e", A: 0, O: "ok"},
+		{K: "drain"},
+		{K: "fault2"},
+		{K: "connect"},
+		{K: "http", C: 9002, M: "GET", S: "/api/t/a"},
+		{K: "start"},
+		{K: "connect"},
+		{K: "creq", C: -1, ID: 1, M: "subscribe.t.e"},
+		{K: "drain"},
 	}
 }
 
